@@ -27,6 +27,9 @@
       every boundary of a clean history with memoized binds, purges and clears, and once the
       last observer is released no node is registered any more.
 
+    - [C09_memo_builds_what_plain_builds]: the subgraph a memoized bind's function builds is
+      the one a plain bind's function builds, up to the scope fields.
+
     NOT proved here: the value-level equivalence "the observed value equals the value of the
     template instance for the current key".  The structural half is above (the right-hand side
     after the pass is the root built by the template instance for that key, now or when the key
@@ -117,6 +120,22 @@ Theorem C09_cached_roots_alive_every_boundary : forall mh os s b r x q,
   has s q /\ scope (nd s q) = None /\ valid (nd s q) = true /\ EvInval q ∉ log s.
 Proof. exact cached_root_alive_history. Qed.
 Print Assumptions C09_cached_roots_alive_every_boundary.
+
+(** the structural half of "behaves like Bind": for a template without nested binds, the function
+    of a memoized bind builds — node for node, identifier for identifier, value for value — what
+    the function of a plain bind builds; the two resulting states differ only in the scope fields
+    of the new nodes and the scope list of the plain bind ([same_upto_scope], EngineInvM.v) *)
+Theorem C09_memo_builds_what_plain_builds : forall s b x e,
+  texp_nobind e = true ->
+  same_upto_scope (inst s None x e).1 (inst s (Some b) x e).1 /\ (inst s None x e).2 = (inst s (Some b) x e).2.
+Proof. exact memo_builds_what_plain_builds. Qed.
+Print Assumptions C09_memo_builds_what_plain_builds.
+
+Theorem C09_inst_scope_irrelevant : forall x e s1 s2 sc1 sc2,
+  texp_nobind e = true -> same_upto_scope s1 s2 ->
+  same_upto_scope (inst s1 sc1 x e).1 (inst s2 sc2 x e).1 /\ (inst s1 sc1 x e).2 = (inst s2 sc2 x e).2.
+Proof. exact inst_scope_irrel. Qed.
+Print Assumptions C09_inst_scope_irrelevant.
 
 Theorem C09_drains : forall mh os s,
   (0 < mh)%nat -> run_clean (init mh) os = Some s -> obs s = ∅ ->
